@@ -22,6 +22,7 @@ CHECKS = {
  "C17": ("model_checking", SESS, "DESIGN.md 5 C17", "TLA+ spec + TLC bounded INPUT x reply space, TLC trace validation"),
  "C02": ("model_checking", "TLC enumerates the operator x type matrix, all operator pairs in both groupings rendered with the minimal parentheses of the 13-level table, literal structures and assignments on the TLA+ value specification (BasicValues/BasicExpr), checks TypeLaw on it, and every case is replayed against the real interpreter comparing value, type and error code; seeded random expression trees inside programs are trace-validated.", "DESIGN.md 5 C02", "TLA+ spec + TLC enumeration of the expression grid, spec-to-implementation replay + TLC trace validation"),
  "C07": ("model_checking", "TLC enumerates every string function x argument combination of the grid on the TLA+ string operators (code-point sequences), checks the laws relating them on the specification, and every case is replayed against the real VM (value, type, error code, printed text); MID$ assignment over the same grid as trace-validated sessions.", "DESIGN.md 5 C07", "TLA+ spec + TLC enumeration, spec-to-implementation replay + TLC trace validation"),
+ "C14": ("model_checking", SESS, "DESIGN.md 5 C14", "TLA+ spec (BasicRenum) + TLC RenumExact/RenumSound over referencing forms x argument triples, TLC trace validation incl. listed text"),
  "C15": ("model_checking", SESS, "DESIGN.md 5 C15", "TLA+ spec + TLC state graph of the program store (ListExact/DeleteExact/LineExact), TLC trace validation incl. listed text"),
  "C18": ("model_checking", SESS, "DESIGN.md 5 C18", "TLA+ spec + TLC StmtNeutral/PoolBounded; leak and pool-limit sessions validated by TLC trace validation (stack probe)"),
  "C20": ("model_checking", SESS, "DESIGN.md 5 C20", "TLA+ spec + TLC LayoutInvariant over layout transformations, TLC trace validation of both layouts"),
